@@ -720,3 +720,211 @@ func (s *decScope) leadsOut(b *ssa.BasicBlock, body map[*ssa.BasicBlock]bool) bo
 	}
 	return walk(b)
 }
+
+// ---------------------------------------------------------------------------
+// DV — property types are validated before a property is handed out.
+//
+// In every in-scope function that stores into PLYProperty.LenType/ElemType:
+// each stored field is the receiver of a later Validate call whose error
+// (directly or through a phi) is tested, and every return of a non-nil
+// *PLYProperty is dominated by the no-error edge of such a test.
+
+func (s *decScope) ruleDV(rule string) {
+	c := s.c
+	ff := c.pkg("fileformats")
+	if ff == nil {
+		return
+	}
+	lenF := c.mustField("fileformats", "PLYProperty.LenType")
+	elemF := c.mustField("fileformats", "PLYProperty.ElemType")
+	if lenF == nil || elemF == nil {
+		return
+	}
+	for _, fn := range s.fns {
+		var stores []*ssa.Store
+		for _, b := range fn.Blocks {
+			for _, ins := range b.Instrs {
+				st, ok := ins.(*ssa.Store)
+				if !ok {
+					continue
+				}
+				fa, ok := st.Addr.(*ssa.FieldAddr)
+				if !ok {
+					continue
+				}
+				if f := fieldOf(fa); f == lenF || f == elemF {
+					stores = append(stores, st)
+				}
+			}
+		}
+		if len(stores) == 0 {
+			continue
+		}
+		// error values produced by Validate calls, closed under phi
+		errVals := map[ssa.Value]*ssa.Call{}
+		validated := map[*ssa.Store]bool{}
+		for _, b := range fn.Blocks {
+			for _, ins := range b.Instrs {
+				call, ok := ins.(*ssa.Call)
+				if !ok {
+					continue
+				}
+				callee := call.Call.StaticCallee()
+				if callee == nil || callee.Name() != "Validate" || len(call.Call.Args) != 1 {
+					continue
+				}
+				errVals[call] = call
+				arg := call.Call.Args[0]
+				for _, st := range stores {
+					if u, ok := arg.(*ssa.UnOp); ok && sameAddr(u.X, st.Addr) && instrDominates(st, call) {
+						validated[st] = true
+					}
+					if arg == st.Val && instrDominates(st, call) {
+						validated[st] = true
+					}
+				}
+			}
+		}
+		for changed := true; changed; {
+			changed = false
+			for _, b := range fn.Blocks {
+				for _, ins := range b.Instrs {
+					if phi, ok := ins.(*ssa.Phi); ok && errVals[phi] == nil {
+						for _, e := range phi.Edges {
+							if errVals[e] != nil {
+								errVals[phi] = errVals[e]
+								changed = true
+							}
+						}
+					}
+				}
+			}
+		}
+		for i, st := range stores {
+			fa := st.Addr.(*ssa.FieldAddr)
+			key := fmt.Sprintf("%s store#%d to %s", qname(fn), i+1, fieldOf(fa).Name())
+			if !validated[st] {
+				c.bad(rule, key, st.Pos(), "type name stored into a property without a later Validate call on it: an unknown name reaches the panicking defaults of Size/Parse/DecodeBinary")
+				continue
+			}
+			// Delete the no-error edges of all tests of Validate errors; no
+			// return of a non-nil property may remain reachable from the store.
+			type edge struct{ from, to *ssa.BasicBlock }
+			deleted := map[edge]bool{}
+			for _, b := range fn.Blocks {
+				if len(b.Instrs) == 0 {
+					continue
+				}
+				ifi, ok := b.Instrs[len(b.Instrs)-1].(*ssa.If)
+				if !ok || len(b.Succs) != 2 {
+					continue
+				}
+				be, ok := ifi.Cond.(*ssa.BinOp)
+				if !ok || (be.Op != token.NEQ && be.Op != token.EQL) {
+					continue
+				}
+				var ev ssa.Value
+				if isNilConst(be.Y) {
+					ev = be.X
+				} else if isNilConst(be.X) {
+					ev = be.Y
+				}
+				if ev == nil || errVals[ev] == nil {
+					continue
+				}
+				if be.Op == token.NEQ {
+					deleted[edge{b, b.Succs[1]}] = true
+				} else {
+					deleted[edge{b, b.Succs[0]}] = true
+				}
+			}
+			okAll := true
+			seenB := map[*ssa.BasicBlock]bool{}
+			stack := []*ssa.BasicBlock{st.Block()}
+			for len(stack) > 0 {
+				b := stack[len(stack)-1]
+				stack = stack[:len(stack)-1]
+				if seenB[b] {
+					continue
+				}
+				seenB[b] = true
+				if ret, ok := b.Instrs[len(b.Instrs)-1].(*ssa.Return); ok && len(ret.Results) > 0 && !isNilConst(ret.Results[0]) {
+					okAll = false
+				}
+				for _, succ := range b.Succs {
+					if !deleted[edge{b, succ}] {
+						stack = append(stack, succ)
+					}
+				}
+			}
+			if okAll {
+				c.ok(rule, key, st.Pos(), "validated by Validate; every return of the property is dominated by the no-error edge")
+			} else {
+				c.bad(rule, key, st.Pos(), "the property can be returned on a path where the Validate error was not tested")
+			}
+		}
+	}
+}
+
+// ---------------------------------------------------------------------------
+// DA.HINT — a clamped allocation hint is only an allocation hint.
+
+func (s *decScope) ruleDAHint(rule string) {
+	c := s.c
+	for _, fn := range s.fns {
+		n := 0
+		for _, b := range fn.Blocks {
+			for _, ins := range b.Instrs {
+				mk, ok := ins.(*ssa.MakeSlice)
+				if !ok {
+					continue
+				}
+				for _, sz := range []ssa.Value{mk.Len, mk.Cap} {
+					phi, ok := stripConv(sz).(*ssa.Phi)
+					if !ok {
+						continue
+					}
+					isClamp := false
+					for _, e := range phi.Edges {
+						if _, isC := e.(*ssa.Const); isC {
+							isClamp = true
+						}
+					}
+					if !isClamp {
+						continue
+					}
+					n++
+					key := fmt.Sprintf("%s hint#%d %s", qname(fn), n, phi.Comment)
+					// all (transitive through conversions) uses must be makes
+					var badUse ssa.Instruction
+					var walk func(v ssa.Value)
+					seen := map[ssa.Value]bool{}
+					walk = func(v ssa.Value) {
+						if seen[v] {
+							return
+						}
+						seen[v] = true
+						for _, ref := range *v.Referrers() {
+							switch r := ref.(type) {
+							case *ssa.MakeSlice:
+							case *ssa.Convert:
+								walk(r)
+							case *ssa.ChangeType:
+								walk(r)
+							case *ssa.DebugRef:
+							default:
+								badUse = ref
+							}
+						}
+					}
+					walk(phi)
+					if badUse == nil {
+						c.ok(rule, key, mk.Pos(), "the clamped value is used only as an allocation size")
+					} else {
+						c.bad(rule, key, badUse.Pos(), "a count clamped for pre-allocation also controls "+fmt.Sprintf("%T", badUse)+": data beyond the clamp is silently dropped")
+					}
+				}
+			}
+		}
+	}
+}
